@@ -233,7 +233,7 @@ def _replay_fixed_point(L):
 def k3b(ctx, kr):
     global _CTX
     _CTX = ctx
-    jobs = [(1, 3), (2, 4), (3, 2)] + ([(2, 5), (4, 3)] if ctx.tier == 'thorough' else [])      # (2,6) and (4,5) end in solver timeouts (64-bit multiply chains)
+    jobs = [(1, 3), (2, 4), (3, 2)] + ([(3, 3), (4, 2), (1, 4)] if ctx.tier == 'thorough' else [])      # five and more fraction characters end in solver timeouts (64-bit multiply chains)
     kr.bounds = 'texts W.F with (|W|,|F|) in %s characters, each a symbolic digit or underscore (first character a digit)' % jobs
     for part in par_map(_k3b_job, jobs): merge_part(kr, part)
     P = ctx.program()
